@@ -485,17 +485,17 @@ pub fn run(args: &Args) -> Report {
     let miri = cfg!(miri);
     let mut rng = Rng::new(args.seed).sub(7 + args.shard as u64 * 1000);
     CTX.log_on.store(false, SeqCst);
-    let rounds = if miri { 1 } else { args.n(8, 60) };
+    let rounds = if miri { 1 } else { args.n(8, 16) };
     for round in 0..rounds {
         rep.eval();
         let readers = if miri { 2 + round % 2 } else { rng.range(1, 12) };
-        let reloads = if miri { 3 } else { args.n(300, 3000) as u64 };
+        let reloads = if miri { 3 } else { args.n(300, 1200) as u64 };
         enhanced(&mut rep, &mut rng, round, readers, reloads);
     }
     for round in 0..rounds {
         rep.eval();
         let callers = if miri { 1 } else { rng.range(1, 4) };
-        let calls = if miri { 3 } else { args.n(200, 2000) as u64 / callers as u64 };
+        let calls = if miri { 3 } else { args.n(200, 1000) as u64 / callers as u64 };
         local(&mut rep, &mut rng, round, calls, callers);
     }
     rep.floor("reads_that_saw_a_new_generation", rep.get("reads_that_saw_a_new_generation"), if miri { 1 } else { 500 });
